@@ -8,8 +8,10 @@
 package sched
 
 import (
+	"errors"
 	"fmt"
 	"hash/fnv"
+	"io/fs"
 	"sync"
 )
 
@@ -44,6 +46,41 @@ func StopLog() []Op {
 	out := make([]Op, len(ops))
 	copy(out, ops)
 	return out
+}
+
+// ---------------------------------------------------------------------------
+// environment answers (passive mode): the k-th file-system operation since
+// ArmFault fails with an injected error instead of being performed.
+
+var (
+	faultAt, faultSeen int
+	faultHit           string
+)
+
+// ErrInjected is what a failed operation reports.
+var ErrInjected = errors.New("input/output error (injected by the verification harness)")
+
+// ArmFault makes the k-th shim operation from now on fail (k >= 1).
+func ArmFault(k int) { faultAt, faultSeen, faultHit = k, 0, "" }
+
+// Disarm switches injection off; it returns how many operations were seen and which one failed ("" = none).
+func Disarm() (int, string) {
+	n, h := faultSeen, faultHit
+	faultAt, faultSeen, faultHit = 0, 0, ""
+	return n, h
+}
+
+// Fault is called by every shim operation right before it would act.
+func Fault(kind, res string) error {
+	if faultAt == 0 || (cur != nil && cur.active) {
+		return nil
+	}
+	faultSeen++
+	if faultSeen != faultAt {
+		return nil
+	}
+	faultHit = kind + "(" + base(res) + ")"
+	return &fs.PathError{Op: kind, Path: res, Err: ErrInjected}
 }
 
 // Mutations returns the mutating operations of a log.
